@@ -235,6 +235,32 @@ def c07_1(ck, prog):
                         'match_rule_equal has no direct comparison of a->%s with b->%s (the field is compared '
                         'only through a masked / derived value, or not at all): rules that differ in it are '
                         '"equal" and RemoveMatch removes a different rule' % (fld, fld))
+    # the byte comparison of argument i runs over argument i's own length
+    ldefs = {}
+    for b, i, ev in eq.events():
+        for lhs, how, rhs in written_lvalues(ev):
+            if is_ref(lhs) and lhs.get('kind') == 'local' and how in ('=', 'decl') and rhs is not None:
+                ldefs.setdefault(lhs['id'], []).append(rhs)
+    for b, i, c in eq.calls('memcmp'):
+        a0 = c['args'][0]
+        while a0 is not None and a0.get('k') in ('cast', 'paren'):
+            a0 = a0.get('e')
+        if not (a0 is not None and a0.get('k') == 'sub' and is_member(a0['base'], 'args', 'BusMatchRule')):
+            continue
+        ln = c['args'][2]
+        if is_ref(ln) and len(ldefs.get(ln.get('id'), [])) == 1:
+            ln = ldefs[ln['id']][0]
+        own = any(x.get('k') == 'sub' and is_member(x['base'], 'arg_lens', 'BusMatchRule')
+                  and same_expr(x['idx'], a0['idx']) for x in walk(ln))
+        other = [estr(x) for x in walk(ln) if is_member(x, None, 'BusMatchRule')
+                 and x['field'] not in ('arg_lens',)]
+        key = 'equal:args-length'
+        if own and not other:
+            r.ok(key)
+        else:
+            r.violation(key, eq.name, SIG, c['line'],
+                        'the bytes of argument i are compared over %s, not over arg_lens[i]: values that differ after '
+                        'that many bytes compare equal (and a longer length reads past the buffers)' % estr(ln))
     if any(is_member(x, 'matches_go_to', 'BusMatchRule') for bid, blk in eq.blocks.items()
            for x in walk((blk.get('term') or {}).get('cond') or {})):
         r.ok('owner:equal')
